@@ -2,7 +2,8 @@ PROPS["C06"] = P(
     "exploration",
     "random operation histories (push/pop/set/resize/fill/flip/reset/extend/conversions/out-of-range) on BitVec and AtomicBitVec checked step by step against a Vec<bool>; "
     "plus constructors/macro forms at every edge length and iterators polled after exhaustion. distinct_nontrivial = number of distinct histories (hash of the operation trace) "
-    "that performed at least one mutation and held both bit values, plus distinct constructor/poll cells",
+    "that performed at least one mutation and held both bit values, plus distinct constructor/poll cells"
+    ' Iterator-protocol monitor on iter, into_iter, iter_ones, iter_zeros; collect / extend from inexact size hints (gen::HintIter); clone_from into shorter / longer / equal / empty destinations; every memory ordering std admits for AtomicBitVec set / swap / get. ',
     dict(builds=["DBG", "UBC"]),
     dict(builds=["DBG", "UBC", "ASAN", "MIRI"], shards={"MIRI": 6, "ASAN": 4, "DBG": 4, "UBC": 4}),
     hang="violation",
